@@ -50,6 +50,10 @@ func genC02Delims(t *rapid.T) jetrun.Delims {
 	if rapid.IntRange(0, 2).Draw(t, "defaultDelims") > 0 {
 		return jetrun.Delims{}
 	}
+	if rapid.IntRange(0, 5).Draw(t, "halfConfigured") == 0 {
+		// only one delimiter of a pair configured: the other one keeps its default
+		return []jetrun.Delims{{Right: "]]"}, {Left: "[["}, {CRight: "#>"}, {CLeft: "<#"}, {Left: "<%", CRight: "#>"}, {Right: "%>", CLeft: "{#"}}[rapid.IntRange(0, 5).Draw(t, "halfWhich")]
+	}
 	return genDelims(t)
 }
 
@@ -127,7 +131,7 @@ func genC02(t *rapid.T) c02Case {
 			"/cyc.jet":    L + `import "base.jet"` + R + L + `import "main.jet"` + R, // cycle when main is loaded by name
 		}
 		kw := rapid.SampledFrom([]string{"extends", "import"}).Draw(t, "refkw")
-		tgt := rapid.SampledFrom([]string{"base.jet", "/base.jet", "broken.jet", "missing.jet", "./base", "../base.jet", "cyc.jet", "main.jet"}).Draw(t, "reftgt")
+		tgt := rapid.SampledFrom([]string{"base.jet", "/base.jet", "broken.jet", "missing.jet", "./base", "../base.jet", "cyc.jet", "main.jet", "", ".", "/", "..", "base.jet/"}).Draw(t, "reftgt")
 		header = L + kw + ` "` + tgt + `"` + R
 		if rapid.Bool().Draw(t, "secondref") {
 			header += "\n" + L + `import "base.jet"` + R
